@@ -573,7 +573,14 @@ def _run(case, scn, tmp):
 
     for op in PREFIXES[case["prefix"]] + case["ops"]:
         done.append(op)
-        vv = apply(op)
+        try:
+            vv = apply(op)
+        except Exception as err:  # every operation of the alphabet is legal at every point of a history: a result is promised
+            import traceback
+
+            vv = [viol("operation_raises", f"after {done}: {op} raised {type(err).__name__}: {str(err)[:200]}\n{traceback.format_exc(limit=4)}",
+                       **dict(k0, op=op, exc=type(err).__name__, saved_to_disk=("saveload" in done[:-1]), two_meshes=("replacemesh" in done),
+                              ops="+".join(done)))]
         ntr += 1
         if not vv:
             vv = check_stored(f"after {done}", dict(k0, ops="+".join(done)))
